@@ -2191,6 +2191,45 @@ def c05_stageuse(ctx):
     return out
 
 
+@rule('C05-ENTRY', 'a parallel kernel entry only wires the run: on its parallel route it neither pulls from the source nor calls a stage closure itself')
+def c05_entry(ctx):
+    """Every per-element rule (C05-VISIT, C05-FEED, C05-ACCEPT, C01-KEY ..) is about the worker tasks and the sequential kernels.
+    The function that calls the runner - builds the task closure, hands it over, merges what comes back - must not do element work
+    of its own: an element it pulls and processes inline ("probe the first element of an unknown-length source before spawning")
+    is seen by none of those rules, and whatever it does with it (skipping the filter, pushing it twice) goes unjudged.  On the
+    route that is not the sequential-only one, the entry itself makes no call of a stage closure and no pull."""
+    out = RuleOut('C05-ENTRY')
+    F = ctx.facts
+    S = ctx.slots
+    n = 0
+    for en in sorted(S.par_entries):
+        b = F.bodies[en]
+        if en in S.tasks or en in S.seq_kernels or en in S.runner_entries:
+            continue
+        cfg = ctx.cfg(b)
+        seq_only = set()
+        for (bn, cbb, sbb, tt, ft) in S.seq_switches:
+            if bn == en and tt != ft:
+                seq_only |= (cfg.reach(tt) - cfg.reach(ft))
+        fbs = b.fn_bounds()
+        n += 1
+        key = 'C05-ENTRY/' + key_of(b)
+        bad = []
+        for bb, t in b.calls():
+            if bb in seq_only or b.blocks[bb].get('cleanup'):
+                continue
+            u = is_user_closure_call(t, b)
+            if u and fbs.get(u, {}).get('inputs') != '(usize,)' and len(fbs.get(u, {}).get('by_ref', [])) == 1:
+                bad.append((t, 'calls the stage closure `%s`' % u))
+            elif is_pull_call(t) and not is_coniter_call(t, {'into_seq_iter'}):
+                bad.append((t, 'pulls from the source with `%s`' % method(t)))
+        out.inst(key, not bad, 'wiring only', sample={'entry': key_of(b)})
+        for (t, what) in bad[:2]:
+            out.fail(key + '/' + what.split('`')[1], '%s %s on its parallel route, outside the worker tasks: that element is processed where none of the per-element rules looks (is it filtered? exactly once? on which thread?)' % (key_of(b), what), b.where(t.get('line')))
+    out.floor('parallel_entries', n, 6 if not ctx.fixture else 0)
+    return out
+
+
 @rule('C05-MERGE', 'only the worker tasks evaluate the per-element closures: what a kernel hands to the runner besides the task contains no stage closure')
 def c05_merge(ctx):
     """The tasks evaluate each stage closure once per element (C05-ONCE, C05-VISIT).  Everything else a kernel passes to a runner
